@@ -141,7 +141,8 @@ type c05Env struct {
 	readers  [c05MaxRd]*c05Reader
 	allRd    []*c05Reader
 
-	lastOp    string // last structural op (signature context)
+	wedged    func(mc.Result) // reports a wedged execution and never returns
+	lastOp    string          // last structural op (signature context)
 	events    int
 	delivered int
 	viol      *mc.Result
@@ -232,42 +233,19 @@ func (r *c05Reader) closedByImpl() bool {
 // elapse once every started reader has been marked closed - an earlier poll would call
 // back into the data set and dead-lock against the operation (see the report).
 func (e *c05Env) call(resetLike bool, f func()) {
-	if !e.disk() {
-		f()
-		return
-	}
 	done := make(chan struct{})
 	go func() {
 		defer close(done)
 		f()
 	}()
-	spins := 0
-	wall := wallNow()
-	for {
+	e.spinUntil(resetLike, func() bool {
 		select {
 		case <-done:
-			return
+			return true
 		default:
+			return false
 		}
-		runtime.Gosched()
-		spins++
-		if spins%64 == 0 {
-			safe := true
-			if resetLike {
-				for _, r := range e.allRd {
-					if r.started && r.aof && !r.closedByImpl() {
-						safe = false
-					}
-				}
-			}
-			if safe && vpoll.Parked() > 0 {
-				vpoll.Tick()
-			}
-			if wallSince(wall) > 20*time.Second {
-				panic("c05: cache operation did not return within 20 s of wall time (suspected dead-lock inside the cache)")
-			}
-		}
-	}
+	})
 }
 
 // awaitExit lets poll periods elapse until the reader's goroutines are gone.
@@ -275,24 +253,126 @@ func (e *c05Env) awaitExit(r *c05Reader) {
 	if !r.started {
 		return
 	}
-	wall := wallNow()
-	for spins := 0; ; spins++ {
+	e.spinUntil(false, func() bool {
 		r.mu.Lock()
-		ex := r.exited
-		r.mu.Unlock()
-		if ex {
+		defer r.mu.Unlock()
+		return r.exited
+	})
+}
+
+// spinUntil yields until cond holds, letting poll periods elapse when that is safe.
+// If instead every other goroutine of the bubble is blocked (at least one of them on a
+// mutex, which nothing in the closed system can release any more) for several
+// consecutive observations, the execution is wedged: that is reported as a violation
+// and this goroutine parks for ever (the bubble is abandoned).
+func (e *c05Env) spinUntil(resetLike bool, cond func() bool) {
+	blockedRounds := 0
+	for spins := 1; ; spins++ {
+		if cond() {
 			return
 		}
 		runtime.Gosched()
-		if spins%64 == 63 {
-			if e.disk() && vpoll.Parked() > 0 {
-				vpoll.Tick()
-			}
-			if wallSince(wall) > 20*time.Second {
-				panic("c05: reader goroutines did not exit within 20 s of wall time after Close")
+		if spins%64 != 0 {
+			continue
+		}
+		safe := true
+		if resetLike {
+			for _, r := range e.allRd {
+				if r.started && r.aof && !r.closedByImpl() {
+					safe = false
+				}
 			}
 		}
+		if e.disk() && safe && vpoll.Parked() > 0 {
+			vpoll.Tick()
+		}
+		if spins%1024 != 0 {
+			continue
+		}
+		all, mtx := bubbleBlocked()
+		if all && len(mtx) > 0 {
+			blockedRounds++
+		} else {
+			blockedRounds = 0
+		}
+		if blockedRounds >= 4 {
+			if cond() {
+				return
+			}
+			cls := "other"
+			joined := strings.Join(mtx, " | ")
+			switch {
+			case strings.Contains(joined, "dataSetRdb).DelReader"), strings.Contains(joined, "dataSetRdb).DelWriter"):
+				cls = "rdb-close"
+			case strings.Contains(joined, "AofRotateReader).close"):
+				cls = "aof-reader-close"
+			}
+			e.lastOp = cls // signature: one per lock cycle, not per operation that runs into it
+			e.fail("a cache operation never returns: every goroutine of the cache is blocked, at least one on a lock that can no longer be released (dead-lock); readers neither end nor fail",
+				"deadlock", map[string]interface{}{"blocked_on_lock": mtx})
+			e.wedged(*e.viol)
+		}
 	}
+}
+
+var c05Never = make(chan struct{}) // created outside every bubble: parking on it is not "durably blocked"
+
+// bubbleBlocked inspects the goroutines of the calling goroutine's bubble: are all the
+// others blocked, and which of them are blocked on a mutex (their repo frames)?
+func bubbleBlocked() (all bool, mutexBlocked []string) {
+	buf := make([]byte, 1<<20)
+	buf = buf[:runtime.Stack(buf, true)]
+	blocks := strings.Split(string(buf), "\n\n")
+	tag := ""
+	if i := strings.Index(blocks[0], "synctest bubble "); i >= 0 {
+		tag = blocks[0][i:]
+		if j := strings.IndexAny(tag, "],"); j >= 0 {
+			tag = tag[:j]
+		}
+	}
+	if tag == "" {
+		return false, nil
+	}
+	all = true
+	for _, b := range blocks[1:] {
+		nl := strings.Index(b, "\n")
+		if nl < 0 {
+			continue
+		}
+		hdr := b[:nl]
+		lb := strings.Index(hdr, "[")
+		if lb < 0 || !strings.Contains(hdr, tag+"]") && !strings.Contains(hdr, tag+",") {
+			continue
+		}
+		st := hdr[lb+1:]
+		switch {
+		case strings.HasPrefix(st, "sync.Mutex.Lock"), strings.HasPrefix(st, "sync.RWMutex.RLock"), strings.HasPrefix(st, "sync.RWMutex.Lock"), strings.HasPrefix(st, "semacquire"):
+			var frames []string
+			for _, ln := range strings.Split(b[nl+1:], "\n") {
+				if strings.HasPrefix(ln, "\t") || !strings.Contains(ln, "redis-GunYu/") || strings.Contains(ln, "verif") {
+					continue
+				}
+				fn := ln
+				if k := strings.Index(fn, "redis-GunYu/"); k >= 0 {
+					fn = fn[k+len("redis-GunYu/"):]
+				}
+				if k := strings.LastIndex(fn, "("); k > 0 {
+					fn = fn[:k]
+				}
+				frames = append(frames, fn)
+				if len(frames) == 8 {
+					break
+				}
+			}
+			mutexBlocked = append(mutexBlocked, strings.Join(frames, " <- "))
+		case strings.HasPrefix(st, "chan receive"), strings.HasPrefix(st, "chan send"), strings.HasPrefix(st, "select"), strings.HasPrefix(st, "sync.Cond.Wait"),
+			strings.HasPrefix(st, "sync.WaitGroup.Wait"), strings.HasPrefix(st, "sleep"), strings.HasPrefix(st, "synctest"):
+		default:
+			all = false
+		}
+	}
+	sort.Strings(mutexBlocked)
+	return
 }
 
 func (e *c05Env) newChannel() Channel {
@@ -368,6 +448,10 @@ func (e *c05Env) checkView() {
 		e.fail("reported range is not a range", "range-shape", d)
 		return
 	}
+	if v.rdbL >= 0 && (e.snap == nil || v.rdbL != e.snap.left || v.rdbS != e.snap.size) {
+		e.fail("a snapshot is offered for replay although it was not (completely) written", "rdb-offer", d)
+		return
+	}
 	if v.r > r && !(v.r == v.l && e.snap != nil && v.r == e.snap.left) {
 		e.fail("reported right edge is beyond the bytes written", "range-beyond", d)
 		return
@@ -388,10 +472,6 @@ func (e *c05Env) checkView() {
 			return
 		}
 	} else {
-		if v.rdbL >= 0 && (e.snap == nil || v.rdbL != e.snap.left || v.rdbS != e.snap.size) {
-			e.fail("a snapshot is offered that was not written", "rdb-offer", d)
-			return
-		}
 		if v.r >= 0 && e.aofStart >= 0 && v.l < e.aofStart && !(e.snap != nil && v.l == e.snap.left) {
 			e.fail("reported left edge precedes the bytes written", "range-beyond", d)
 			return
@@ -625,6 +705,10 @@ func (e *c05Env) opAof() {
 		off = c05Base
 		e.aofStart, e.right = -1, -1
 	}
+	if e.aofStart >= 0 && off < e.right && off >= e.aofStart && e.memBlocked() {
+		// the memory writer was waiting for space: bytes it had not accepted yet are dropped with it
+		e.right = off
+	}
 	g := newGate()
 	var h AofChannelWriter
 	var err error
@@ -693,8 +777,22 @@ func (e *c05Env) opEOF() {
 	w.g.Close(nil)
 	e.events++
 	if !e.waitUntil(w.isDone) {
-		e.fail("writer did not end after its source ended", "writer-hang", nil)
-		return
+		if !e.memBlocked() {
+			e.fail("writer did not end after its source ended", "writer-hang", nil)
+			return
+		}
+		// memory writer waiting for space (a reader pins the oldest segment): the caller's
+		// Close ends it; bytes it had not accepted are dropped with it
+		w.h.Close()
+		if !e.waitUntil(w.isDone) {
+			e.fail("writer did not end after Close", "writer-hang", nil)
+			return
+		}
+		if aw, ok := w.h.(AofChannelWriter); ok && w.kind == "aof" {
+			if r := aw.Right(); r >= e.aofStart && r <= e.right {
+				e.right = r
+			}
+		}
 	}
 	e.writerEnded()
 	e.settle()
@@ -956,10 +1054,24 @@ func (e *c05Env) apply(op string) {
 }
 
 // enabled lists the operations that make sense in the current state.
-func (e *c05Env) enabled(tier string) []string {
+func (e *c05Env) enabled(tier string) ([]string, map[string]bool) {
 	var ops []string
+	risky := map[string]bool{}
 	if e.runID == "" {
-		return []string{"sidS", "sidN"}
+		return []string{"sidS", "sidN"}, risky
+	}
+	if e.disk() {
+		reg := e.w != nil && e.w.kind == "rdb"
+		for _, r := range e.allRd {
+			if _, ended := r.snapshot(); !r.aof && !ended {
+				reg = true
+			}
+		}
+		if reg {
+			for _, op := range []string{"rdbF", "rdbP", "rdbH", "del"} {
+				risky[op] = true
+			}
+		}
 	}
 	ops = append(ops, "rdbF", "rdbP")
 	if tier == "thorough" {
@@ -993,11 +1105,10 @@ func (e *c05Env) enabled(tier string) []string {
 	if e.disk() && !e.cfg.large() {
 		ops = append(ops, "gc")
 	}
-	if e.w != nil {
-		ops = append(ops, "sidS")
-	}
+	// "sidS" (SetRunId of the current id while a writer is live) is not part of the
+	// alphabet: every caller selects the run id before it creates writers.
 	ops = append(ops, "sidSq", "sidN", "del", "reo")
-	return ops
+	return ops, risky
 }
 
 // otherPolling: on disk at most one started segment reader may exist while the sequence
@@ -1220,61 +1331,69 @@ type c05Outcome struct {
 	res     mc.Result
 	key     string
 	enabled []string
+	risky   map[string]bool // enabled ops that reset the cache while a snapshot reader/writer is registered
+	wedged  bool
 }
 
 func c05Exec(t *testing.T, scn c05Scenario, tier string) c05Outcome {
-	var out c05Outcome
 	c05DirSeq++
 	scratch := os.Getenv("VERIF_SCRATCH")
 	if scratch == "" {
 		scratch = os.TempDir()
 	}
 	dir := filepath.Join(scratch, fmt.Sprintf("c05-%d-%d", os.Getpid(), c05DirSeq))
-	defer os.RemoveAll(dir)
 	if config.GetSyncerConfig().Channel == nil {
 		config.GetSyncerConfig().Channel = &config.ChannelConfig{}
 	}
-	msg := bubble(t, func() {
-		vpoll.Reset(scn.Cfg.Backend == "disk")
-		e := &c05Env{t: t, cfg: scn.Cfg, dir: dir, aofStart: -1, right: -1, lastOp: "init"}
-		if e.disk() {
-			if err := os.MkdirAll(dir, 0o777); err != nil {
-				out.res = mc.Result{Verdict: "machinery", Clause: "scratch: " + err.Error()}
+	// The bubble runs on its own goroutine so that a wedged execution (dead-lock
+	// inside the cache) can be abandoned: its goroutines stay blocked for ever.
+	resCh := make(chan c05Outcome, 2)
+	go func() {
+		var out c05Outcome
+		msg := bubble(t, func() {
+			vpoll.Reset(scn.Cfg.Backend == "disk")
+			e := &c05Env{t: t, cfg: scn.Cfg, dir: dir, aofStart: -1, right: -1, lastOp: "init"}
+			e.wedged = func(v mc.Result) {
+				resCh <- c05Outcome{res: v, wedged: true}
+				<-c05Never
+			}
+			if e.disk() {
+				if err := os.MkdirAll(dir, 0o777); err != nil {
+					out.res = mc.Result{Verdict: "machinery", Clause: "scratch: " + err.Error()}
+					return
+				}
+			}
+			e.ch = e.newChannel()
+			e.opSetRunID(e.newID())
+			e.checkView()
+			for _, op := range scn.Ops {
+				if e.viol != nil {
+					break
+				}
+				e.apply(op)
+			}
+			if e.viol == nil {
+				out.key = e.key()
+				out.enabled, out.risky = e.enabled(tier)
+				e.probes()
+			}
+			e.teardown()
+			if e.viol != nil {
+				out.res = *e.viol
 				return
 			}
-		}
-		e.ch = e.newChannel()
-		e.opSetRunID(e.newID())
-		e.checkView()
-		for _, op := range scn.Ops {
-			if e.viol != nil {
-				break
+			out.res = mc.OK(mc.Hash(out.key), e.delivered > 0, e.events)
+		})
+		if msg != "" {
+			if len(msg) > 3000 {
+				msg = msg[:3000]
 			}
-			e.apply(op)
+			out = c05Outcome{res: mc.Result{Verdict: "machinery", Clause: "bubble: " + msg}}
 		}
-		if e.viol == nil {
-			out.key = e.key()
-			out.enabled = e.enabled(tier)
-			e.probes()
-		}
-		e.teardown()
-		if e.viol != nil {
-			out.res = *e.viol
-			return
-		}
-		out.res = mc.OK(mc.Hash(out.key), e.delivered > 0, e.events)
-	})
-	if msg != "" {
-		if strings.Contains(msg, "deadlock") {
-			// goroutines of the cache left blocked for ever after everything was closed
-			if len(msg) > 1500 {
-				msg = msg[:1500]
-			}
-			return c05Outcome{res: mc.Result{Verdict: "machinery", Clause: "bubble: " + msg}}
-		}
-		return c05Outcome{res: mc.Result{Verdict: "machinery", Clause: "bubble: " + msg}}
-	}
-	return out
+		os.RemoveAll(dir)
+		resCh <- out
+	}()
+	return <-resCh
 }
 
 func c05Configs(tier string) []c05Cfg {
@@ -1319,6 +1438,7 @@ func runC05(t *testing.T, rep *mc.Reporter) {
 	type node struct {
 		ops     []string
 		enabled []string
+		risky   map[string]bool
 	}
 	for _, cfg := range c05Configs(tier) {
 		seen := map[string]bool{}
@@ -1352,7 +1472,8 @@ func runC05(t *testing.T, rep *mc.Reporter) {
 		if shard == 0 {
 			states++
 		}
-		frontier := []node{{nil, root.enabled}}
+		frontier := []node{{nil, root.enabled, root.risky}}
+		wedgedSeen := 0
 		for d := 1; d <= depth && len(frontier) > 0; d++ {
 			var next []node
 			for _, nd := range frontier {
@@ -1360,10 +1481,23 @@ func runC05(t *testing.T, rep *mc.Reporter) {
 					if budget.Expired() {
 						break
 					}
+					if nd.risky[op] && wedgedSeen >= 2 {
+						// same shape as an already confirmed dead-lock of this configuration:
+						// not executed again (every wedged execution leaks its goroutines)
+						rep.Count("skipped_known_deadlock_shape", 1)
+						continue
+					}
+					if wedgedSeen >= 12 {
+						rep.Capped("more than 12 wedged executions in one configuration; search of this configuration stopped")
+						break
+					}
 					ops := append(append([]string(nil), nd.ops...), op)
 					o, ok := run(ops, d > sharedLevels || shard == 0)
 					if !ok {
 						return
+					}
+					if o.wedged {
+						wedgedSeen++
 					}
 					if o.res.Verdict != "ok" {
 						continue
@@ -1375,7 +1509,7 @@ func runC05(t *testing.T, rep *mc.Reporter) {
 					if d > sharedLevels || shard == 0 {
 						states++
 					}
-					next = append(next, node{ops, o.enabled})
+					next = append(next, node{ops, o.enabled, o.risky})
 				}
 			}
 			if d == sharedLevels {
